@@ -40,7 +40,10 @@ def diverged(net, k, hist, label, tainted=None):
                 if what == "version-differs":
                     # a write issued on node i is applied there and applied again when the primary's copy comes back
                     own = len([1 for (n_, c) in hist if n_ == i and key_of(c) == key and (c.split(" ")[0] in ("set", "remove", "create-user", "set-permissions") or c.startswith(f"set-safe {key} -1 "))])   # set-safe with version -1 IS a plain set
-                    if own > 0 and 0 < b[1] - a[1] <= own:
+                    # … and a write carrying the in-conflict marker -2 is applied twice too: the first time the key gets vinc(-2) = -1 (absent key)
+                    # or keeps -2, the echo then pins it at -2 — the origin ends BELOW or above the primary, same cause
+                    marked = any(n_ == i and c.startswith(f"set-safe {key} -2 ") for (n_, c) in hist)
+                    if (own > 0 and 0 < b[1] - a[1] <= own) or (marked and b[1] == -2):
                         fails.append(Failure("version-differs:echo-of-own-write", f"{db}/{key}: primary {a} n{i} {b} after {own} write(s) of the key issued on n{i}; history {hist}"))
                         if tainted is not None: tainted.add((i, db, key))
                         continue
